@@ -46,7 +46,9 @@ Definition print_fld (f : fld) : list Z :=
 (* VcfU: a VCF table whose INFO column has the declared type Union[BNPDataClass, str] (VCFEntry built in
    memory); VcfL: a VCF table read lazily from a canonical file and not modified (its records are passed
    through as the text they were read from — the extraction itself is property C04).  Same file format. *)
-Inductive fmt := Delim | Vcf | VcfU | VcfL | Fasta (w : Z) | Fastq.
+(* DelimL: a delimited table (BED, BedGraph, ...) read lazily from a canonical file, then sliced / masked / re-ordered /
+   np.concatenate'd but not modified: its records are passed through as the text they were read from *)
+Inductive fmt := Delim | DelimL | Vcf | VcfU | VcfL | Fasta (w : Z) | Fastq.
 
 (* sequence text in lines of w characters, every line terminated by LF *)
 Fixpoint wrap_fuel (fuel : nat) (w : nat) (s : list Z) : list Z :=
@@ -65,7 +67,7 @@ Definition vcf_shift (d : Z) (r : row) : row :=
 Definition ser_delim (r : row) : list Z := intercalate [9] (map print_fld r) ++ [10].
 Definition ser_row (f : fmt) (r : row) : list Z :=
   match f with
-  | Delim => ser_delim r
+  | Delim | DelimL => ser_delim r
   | Vcf | VcfU | VcfL => ser_delim (vcf_shift 1 r)
   | Fasta w => match r with
                | [n; s] => [62] ++ print_fld n ++ [10] ++ wrap w (print_fld s)
@@ -213,7 +215,7 @@ Definition id_cols_ok (schema : list Z) (rows : list row) : bool :=
   end.
 Definition parse_raw_with pf (f : fmt) (schema : list Z) (file : list Z) : option (list row) :=
   match f with
-  | Delim => all_some (map (parse_line_with pf schema) (lines file))
+  | Delim | DelimL => all_some (map (parse_line_with pf schema) (lines file))
   | Vcf | VcfU | VcfL => option_map (map (vcf_shift (-1)))
              (all_some (map (parse_line_with pf schema) (drop_comments (lines file))))
   | Fasta _ => parse_fasta None (lines file)
@@ -443,6 +445,7 @@ Definition from_data (f : fmt) (rows : list row) : Z * list Z :=
   | Vcf => (0, delim_from_data (map (vcf_shift m_vcf_pos_delta) rows))
   | VcfU => if union_info_writable then (0, delim_from_data (map (vcf_shift m_vcf_pos_delta) rows)) else (2, [])
   | VcfL => (0, serialise VcfL rows)      (* buffer.data.ravel(): the canonical source lines *)
+  | DelimL => (0, serialise DelimL rows)  (* the selected records' source lines, in the selected order *)
   | Fastq => (0, fastq_from_data rows)
   | Fasta w =>
       match fasta_from_data w (map (fun r => match r with
@@ -461,7 +464,7 @@ Definition from_data_lazy_pos (rows : list row) : list Z :=
   delim_from_data (map (vcf_shift m_vcf_pos_delta) rows).
 
 (* ---- NpBufferedWriter.write, files._get_buffered_file ---- *)
-Definition has_header (f : fmt) : bool := match f with Delim | Vcf | VcfU | VcfL => true | _ => false end.
+Definition has_header (f : fmt) : bool := match f with Delim | DelimL | Vcf | VcfU | VcfL => true | _ => false end.
 (* `self._file_obj.mode != 'ab'`: a GzipFile's mode is an int, never 'ab' — the code as it is *)
 Definition mode_is_ab_pinned (append gz : bool) : bool := append && negb gz.
 Definition mode_is_ab_fixed (append gz : bool) : bool := append.
